@@ -70,7 +70,7 @@ REG.contract(
     requires=["len(mac) <= 65535"],
     raises=[("builtins.NotImplementedError", "True", "may")],
     returns=T.opt(CTX),
-    ensures=["(not multi) or result.ghost_data == be(len(mac), 2) + mac", "multi or result is None"],
+    ensures=["(not multi) or (result is not None)", "(not multi) or result.ghost_data == be(len(mac), 2) + mac", "multi or result is None"],
     props=["C14"],
     note="multi-message chaining: the next context is primed with the length-prefixed MAC of the message just processed",
 )
@@ -119,4 +119,60 @@ REG.contract(
     note="validate: FormError without an additional record; the peer's error code is reported; BadTime exactly when the "
          "signing time is outside the fudge window (either side); then key name, then algorithm (case-insensitively), and only "
          "then the MAC over _digest's components is checked",
+)
+
+# ----------------------------------------------------------------------------- sign: the MAC is taken over exactly _digest's octets
+import z3 as _z3  # noqa: E402
+from pyvc import sym as _S  # noqa: E402
+from pyvc.sym import SBytes as _SBytes  # noqa: E402
+
+_HMAC = _z3.Function("hmac_of", _S.SeqI, _S.SeqI)  # keyed digest of everything fed to the context (A-crypto: uninterpreted)
+
+
+def _hmac_smt(I, data):
+    from pyvc import models as M
+
+    return _SBytes(_HMAC(M.as_seq(I, data)), "bytes")
+
+
+REG.spec("hmac_of", _hmac_smt, lambda d: b"", "the MAC the (fixed) key and algorithm give for the digested octets d")
+REG.contract(
+    "dns.tsig.HMACTSig.sign", params={"self": CTX}, raises=[], returns=T.bytes,
+    ensures=["result == hmac_of(self.ghost_data)", "len(result) <= 65535"], status="assumed", props=["C14"],
+    note="ASSUMED (A-crypto): sign() returns the MAC of what was digested (truncated as the algorithm name says)",
+)
+_TSIGRD3 = T.obj("dns.rdtypes.ANY.TSIG.TSIG", algorithm=NAME, mac=T.bytes)
+REG.contract(
+    "dns.rdata.Rdata.replace#tsig",
+    target="dns.rdata.Rdata.replace",
+    params={"self": _TSIGRD3, "time_signed": T.range(0, 2**48 - 1), "mac": T.bytes},
+    raises=[], returns=_TSIGRD3, when=lambda b: "fudge" in getattr(b.get("self"), "fields", {}),
+    ensures=["result.time_signed == time_signed and result.mac == mac",
+             "result.original_id == self.original_id and result.fudge == self.fudge and result.error == self.error "
+             "and result.other == self.other"],
+    status="assumed", props=["C14"],
+    note="ASSUMED: Rdata.replace returns a copy with exactly the named fields replaced (generic constructor path, C07)",
+)
+REG.contract(
+    "dns.tsig.sign",
+    no_native=True,
+    params={"wire": T.bytes, "key": KEY, "rdata": _TSIGRD3, "time": T.range(0, 2**48 - 1),
+            "request_mac": T.opt(T.bytes), "ctx": T.opt(CTX), "multi": T.oneof(None, False, True)},
+    requires=[ISABS("key.name"), ISABS("key.algorithm"), "request_mac is None or len(request_mac) <= 65535", "len(wire) >= 2",
+              "len(rdata.other) <= 65535"],
+    raises=[("builtins.NotImplementedError", "True", "may")],
+    returns=T.fixed(_TSIGRD3, T.opt(CTX)),
+    ensures=[
+        # first message (or a single one): the MAC covers [request MAC] + id-normalised message + the TSIG variables
+        f"(not {_FIRST}) or result[0].mac == hmac_of({_RM} + {_COMMON} + {_VARS_FIRST})".replace("{_T}", "time"),
+        "result[0].time_signed == time and result[0].fudge == rdata.fudge and result[0].original_id == rdata.original_id "
+        "and result[0].error == rdata.error and result[0].other == rdata.other",
+        # multi-message exchanges: the next context starts from the length-prefixed MAC just produced
+        "(not multi) or (result[1] is not None)",
+        "(not multi) or result[1].ghost_data == be(len(result[0].mac), 2) + result[0].mac",
+        "multi or result[1] is None",
+    ],
+    props=["C14"],
+    note="sign: the MAC placed in the TSIG record is the HMAC of exactly the RFC 8945 digest components with the given signing "
+         "time (modular over _digest), the other TSIG fields are kept, and the follow-up context is primed with that MAC",
 )
